@@ -103,7 +103,8 @@ CLAIMED = {
     'C19': _c('static: interval analysis with public option fields ranging over their whole type',
               'OPT-TAINT: every arithmetic assert fed by a public option value in the writer-constructor call tree is proven '
               'unreachable or reported (one finding per function); the properties byte fits u8. OPT-VALIDATE: no writer '
-              'constructor / header encoder lost a validation exit (census); OPT-CLAMP; FORMULA-TWIN.',
+              'constructor / header encoder lost a validation exit (census); OPT-ALLOC: no allocation in the constructor call tree '
+              'is sized by an unclamped 64-bit option; OPT-CLAMP; FORMULA-TWIN.',
               'decodability of what in-range options produce (C01/C02); run-time state arithmetic inside encode loops.'),
 }
 
